@@ -308,7 +308,12 @@ func TestVerifC05(t *testing.T) {
 	idx := 0
 	// existing, colliding-new, non-colliding-new, and a new name long enough for its record to reach
 	// across the gap that alignment leaves in front of the first record
-	use := []string{k1, k3, "fresh", "fresh/" + strings.Repeat("n", 42)}
+	// ... and, first of all, a new name of stack-counter size (a damaged limit that wraps around 2^32 in the
+	// placement arithmetic ends up lowered to the size of the first record placed)
+	// (its record, placed at offset 0 by such a wrap, would end 32 bytes into the record area)
+	w0 := ref.NewCFWriter(zzvC10Meta())
+	firstRec := (w0.HdrLen + 4 + 4*ref.CFBuckets + 31) / 32 * 32
+	use := []string{("bigfirst/" + strings.Repeat("B", 4096))[:firstRec+32-16], k1, k3, "fresh", "fresh/" + strings.Repeat("n", 42)}
 	useDefault := use
 	var baseNames map[string]bool // the counters really stored in the undamaged base file
 	checkRest := func(desc string, data []byte) {
